@@ -49,9 +49,7 @@ def quad_map_rule(repo: Repo) -> RuleRun:
         if repo.cls("construct.flat.sketches.disk.DiskBase") in repo.mro(cls):
             n_pos = len(_positions_layout(repo, cls)[0])
         else:
-            for n in walk_shallow(cls.methods["__init__"].node):
-                if isinstance(n, ast.Assign) and isinstance(n.targets[0], ast.Name) and n.targets[0].id == "positions" and isinstance(n.value, ast.List):
-                    n_pos = len(n.value.elts)
+            n_pos = sketches.positions_literal_len(cls.methods["__init__"])
         r.require(n_pos is not None, f"{cls.name}: number of positions not derivable")
         used = {i for q in qm for i in q}
         r.check(used == set(range(n_pos)), cls, f"{n_pos} positions, all used", f"{cls.name}.quad_map uses point indexes {sorted(used - set(range(n_pos)))} beyond the {n_pos} positions / never uses {sorted(set(range(n_pos)) - used)}", cls.methods["__init__"].node, key="positions")
@@ -330,15 +328,20 @@ def chain_source(repo: Repo) -> RuleRun:
         r.require(len(calls) == 1 and len(calls[0].args) >= 3, f"{qn}: 'cls(axis_point_1, axis_point_2, radius_point, ...)' not found")
         args = calls[0].args
 
-        def sk(expr) -> Set[str]:
+        local_defs: Dict[str, ast.expr] = {}
+        for n in walk_shallow(fn.node):
+            if isinstance(n, ast.Assign) and isinstance(n.targets[0], ast.Name) and n.targets[0].id not in alias:
+                local_defs[n.targets[0].id] = n.value
+
+        def sk(expr, depth: int = 0) -> Set[str]:
             out = set()
             for n in ast.walk(expr):
                 if isinstance(n, ast.Attribute) and n.attr in ("sketch_1", "sketch_2"):
                     out.add(n.attr)
                 if isinstance(n, ast.Name) and n.id in alias:
                     out.add(alias[n.id])
-                if isinstance(n, ast.Name) and n.id in ("new_radius_point",):
-                    out.add("sketch_1")
+                if isinstance(n, ast.Name) and n.id in local_defs and depth < 4:
+                    out |= sk(local_defs[n.id], depth + 1)
             return out
 
         ok = sk(args[0]) == {"sketch_1"} and sk(args[1]) == {"sketch_2"} and sk(args[2]) == {"sketch_1"}
